@@ -182,7 +182,22 @@ def coq_build(targets=None, timeout=3000, clean=False, keep_going=False):
             rc, out = run(["coq_makefile", "-f", "_CoqProject", "-o", "Makefile"], cwd=COQ, timeout=120)
             if rc != 0:
                 return False, out
+        # generated files are rewritten by translators, possibly with an older modification time than a .vo that was
+        # compiled from other content (a run against a scratch copy of /repo): make goes by time, so remember by a
+        # sidecar what content each generated .vo was last built from and force a rebuild when it differs
+        gen_dir = os.path.join(COQ, "Generated")
+        gens = sorted(glob.glob(os.path.join(gen_dir, "*.v")))
+        shas = {}
+        for g in gens:
+            shas[g] = hashlib.sha256(open(g, "rb").read()).hexdigest()
+            side = os.path.join(gen_dir, "." + os.path.basename(g) + ".built")
+            built = open(side).read().strip() if os.path.exists(side) else ""
+            if built != shas[g]:
+                os.utime(g, None)
         rc, out = run(["make", "-C", COQ, "-j16"] + (["-k"] if keep_going else []) + (targets or []), timeout=timeout)
+        for g in gens:
+            if os.path.exists(g[:-2] + ".vo") and os.path.getmtime(g[:-2] + ".vo") >= os.path.getmtime(g):
+                open(os.path.join(gen_dir, "." + os.path.basename(g) + ".built"), "w").write(shas[g])
         return rc == 0, out
 
 
